@@ -1158,7 +1158,8 @@ func (mgr *Manager) UpdateTag(name string, operation UpdateTagOperation) error {
 	info := updateTagOperationInfo{convertersUpdated: false}
 	operation(&info)
 	maxUsedStreamID := uint64(0)
-	if len(info.markTagAddStreams) != 0 || len(info.markTagDelStreams) != 0 {
+	updateMarks := len(info.markTagAddStreams) != 0 || len(info.markTagDelStreams) != 0
+	if updateMarks {
 		if !(strings.HasPrefix(name, "mark/") || strings.HasPrefix(name, "generated/")) {
 			return fmt.Errorf("tag %q is not of type 'mark' or 'generated'", name)
 		}
@@ -1282,7 +1283,7 @@ func (mgr *Manager) UpdateTag(name string, operation UpdateTagOperation) error {
 				}
 				mgr.startConverterJobIfNeeded()
 			}
-			if maxUsedStreamID != 0 {
+			if updateMarks {
 				if maxUsedStreamID >= mgr.nextStreamID {
 					return fmt.Errorf("unknown stream id %d", maxUsedStreamID)
 				}
